@@ -513,6 +513,11 @@ def check_select_nonempty(ctx, rule: str, select_fn=lambda fi: True):
                     guarded = True
                 if pol and isinstance(t, ast.Name) and t.id in names:
                     guarded = True
+                # reached only when `len(L) == 0` / `len(L) < 1` is false (an early continue / return)
+                if not pol and cc and cc[1] == "==" and "0" in (cc[0], cc[2]) and any(f"len({nm})" in (cc[0], cc[2]) for nm in names):
+                    guarded = True
+                if not pol and cc and cc[1] == "<" and cc[2] == "1" and any(cc[0] == f"len({nm})" for nm in names):
+                    guarded = True
             ctx.ob(rule, construct(fi, f"select({short(a0, 30)}, ...) runs only when the condition list is not empty"), guarded, loc(fi, c),
                    "" if guarded else "numpy.select raises ValueError (not AssertionError) on an empty condition list, e.g. when nothing has to be grouped")
     return n
